@@ -152,7 +152,7 @@ func init() {
 	mc.Register(&mc.Check{
 		ID:    "C10",
 		Level: "model_checking",
-		Rule: "engine S: all histories of <=5 (thorough <=6) calls over a 24-letter alphabet of call classes (Bytes, CSel, NSel, LOD, SetCSel, SetNSel, SetCReg/SetNReg {ok, ok-incr, ADJ=7, incr with ADJ=1}, SetLOD, StartPath {ok, ADJ=7}, L, A, H, Y, Z, Reset {default, custom}) from 3 initial objects (zero value, Reset(default), after an error), " +
+		Rule: "engine S: all histories of <=5 (thorough <=6, <=7 from the zero value) calls over a 24-letter alphabet of call classes (Bytes, CSel, NSel, LOD, SetCSel, SetNSel, SetCReg/SetNReg {ok, ok-incr, ADJ=7, incr with ADJ=1}, SetLOD, StartPath {ok, ADJ=7}, L, A, H, Y, Z, Reset {default, custom}) from 3 initial objects (zero value, Reset(default), after an error), " +
 			"each executed on a real Encoder in lock step with the 3-state specification automaton; then breadth-first search to depth 12 over canonical private states (reflective dump minus write-only buffers). " +
 			"In every state: Bytes errs iff the automaton is in error, the error value is the first one and sticky, Bytes twice equal, closed error-free histories decode to exactly the calls since the last Reset, zero-value and Reset(default) objects agree on bytes, errors and read-backs. " +
 			"states = distinct canonical Encoder states seen, transitions = calls executed in the BFS, evaluations = histories judged; non-trivial = history reaches the error state or contains a closed path",
@@ -165,6 +165,9 @@ func init() {
 			}
 			init, l0, l1 := u/(nl*nl), u/nl%nl, u%nl
 			D := c10Depth(w.Tier)
+			if w.Thorough && init == 0 {
+				D = 7 // the zero value (which is also compared with the reset object) one level deeper
+			}
 			seq := make([]int, 0, D)
 			seq = append(seq, l0)
 			if l1 == 0 {
